@@ -78,8 +78,13 @@ impl RecursiveStreamCursor {
         // remove last generation if it empty to track cursor state
         remove_last_generation_if_empty(stream);
         self.cursor = stream.cursor();
-        // add new last generation to store new values into this generation
-        stream.new_values().add_new_empty_generation();
+
+        if state.should_continue() {
+            // add new last generation to store new values into this generation
+            stream.new_values().add_new_empty_generation();
+        }
+        // otherwise the fold is over, and an empty generation left in the stream would make the cursor
+        // of the next fold over this stream skip the values added in its first iteration
 
         state
     }
